@@ -55,6 +55,7 @@ type interpreter struct {
 	onceDone           map[string]bool
 	panicTrace         []string
 	jsonSizes          map[*gomap]value
+	jsonpathText       map[*value]string
 	locks              map[*value]*lockState
 }
 
